@@ -212,7 +212,7 @@ GROUPS += [
     },
     # ------------------------------------------------------------------ C02
     {
-        "id": "C02.identity", "property": ["C02", "C03"], "crate": "core", "harnesses": ["c02_identity"], "jobs": 6,
+        "id": "C02.identity", "property": ["C02", "C03", "C01"], "crate": "core", "harnesses": ["c02_identity"], "jobs": 6,
         "timeout_s": 300, "mem_gb": 8, "functions": STRAT_FNS + ["TracerState::probe_data", "TracerState::in_round"],
         "bounds": "all 2^16 sequences x rounds x ports x addresses x identifiers, per protocol x family (6 queries)",
         "assumptions": ["wire contract: IPv4 identification = probe identifier, UDP ports = probe ports, UDP checksum = "
